@@ -13,7 +13,7 @@ theorem LiveInv_init (cfg : Cfg) (hw : WellCfg cfg) : LiveInv (init cfg) := by
     exact ⟨k, List.mem_range.1 hk, rfl⟩
   have hlive : liveCnt (init cfg) = cfg.nWorkers := by
     unfold liveCnt
-    have : ∀ w ∈ (init cfg).workers, (w.pc != .exited) = true := by
+    have : ∀ w ∈ (init cfg).workers, (!gone w.pc) = true := by
       intro w hm; obtain ⟨k, _, rfl⟩ := hwk w hm; rfl
     rw [List.countP_eq_length.2 this]
     simp [init]
